@@ -23,6 +23,8 @@ CHECKS = {
          TB + "Judged only where every candidate era has a whole-minute offset in the file (pytz rounds offsets to minutes), instants 1902-2037 (32-bit).", TECH, "4/C11"),
  "C05": ("TLC enumerates every collection of 2-4 lattice pieces, proves in exact integer arithmetic that the normal equations have a unique solution, that the solution is stationary (each piece's residuals sum to zero: the characterisation of the minimiser of the convex quadratic) and independent of the pinned piece, and emits the rational optimum; the real get_series_time_offsets must return those offsets, crossings and master values within 1e-9 at several grid steps and abscissa scales; the tables written by rise / recession on synthetic and field datasets are checked for stationarity by TLC in fixed point (TraceCurves, with C06/C13).",
          TB + "Optimality against all real competitor vectors is decided through stationarity + non-zero determinant, not by enumerating competitors.", TECH, "4/C05"),
+ "C06": ("TLC explores the planted-truth generator Hydro.tla (Recede / Storm / Drizzle / Gap on a master recession lattice with constant specific yield) and checks on every behaviour that the classifier's definitions (Classify.tla) recover exactly the planted storms, depths and recessions; finished behaviours (exhaustive to depth 4, simulated to depth 12-30, three truths) are written as text files and driven through load, classify, set-zeta-grid, recession, rise via the CLI entry point at three time steps, grid steps and zones; both master curves must equal the truth up to origin and every aligned piece must coincide with the master.",
+         TB + "Judged when every level-richest overlap component of the planted pieces has >= 2 pieces (otherwise the commands have nothing to align).", TECH, "4/C06"),
  "C08": ("TLC explores collections including disconnected overlap graphs with re-ordering and axis-shift as actions: the code-shaped component merge equals the declarative components, only and all of the main body is placed, the result is unchanged by the actions and by the pinned piece; every reachable presentation is replayed into the real get_series_time_offsets and must give the specification's members, relative offsets and master curve.",
          TB + "Collections whose level-richest component is not unique or is a single piece are not judged (the code raises ValueError there; whether that violates C08 is ambiguous).", TECH, "4/C08"),
  "C12": ("TLC enumerates every series of 2..5 samples on a half-integer lattice with one-ulp displacement classes and irregular abscissae, checks bracketing / on-the-line / once-per-pair / monotone-once as invariants of Regrid.tla and emits the exact report; every series is presented to the real regrid() and build_head_mapping() at dyadic and non-dyadic steps and at small and UNIX-epoch abscissae: ids must match exactly in order, positions within 1e-9 (1e-5 s at epoch scale).",
